@@ -17,21 +17,33 @@
    of the labels, = classes of conn, count = number of classes), resolutions (labels and validity kept,
    exactly the first |s| crossings resolved, panic iff the state is too long, a full state is
    crossingless with circle count = number of classes), signs negated by mirror and invariant under
-   injective relabelling (for every code, valid or not), closure valid with one X crossing per letter.
-   STAGED (not proved; covered by the exact correspondence run and by the invariance cases evaluated on
-   the implementation, see vlib/c18.py):
-   - C18_signs "orientation" clause: that the signs are those of an orientation agreeing with every
-     under-strand direction 0->2 needs the code to be consistently oriented (planarity is not modelled);
-   - invariance of writhe / signed numbers under crossing reordering: for a component that only passes
-     over, the orientation chosen depends on the crossing order and the individual signs do change; the
-     sums are invariant only because such a component has linking number 0 with the rest (a theorem about
-     planar diagrams, outside this development);
-   - closure: writhe = exponent sum (same caveat for strands that only pass over: closure [1,-1] gets
-     the sign list [-,+]) and components = cycles of the braid permutation. *)
-From Coq Require Import List Arith Bool ZArith.
+   injective relabelling (for every code, valid or not).
+   Orientation clause (C18_signs_orientation, C18_signs_orientation_unique): for every valid code with unresolved crossings (X / Xm) that
+   admits a consistent orientation o ([Oriented l o]: head/tail assignment to the half-edges compatible
+   with the passage through crossings, with the two ends of every edge, and with the under-strand
+   direction 0 -> 2 of every crossing - planarity is not modelled, so this is a hypothesis; braid closures
+   satisfy it, C18_closure_oriented), crossing_signs returns exactly the signs of such an orientation o',
+   equal to o on every component that passes under somewhere; if every component passes under somewhere
+   (e.g. every knot diagram) the signs are those of o itself and a reordering of the crossings permutes
+   the sign list, hence writhe and signed crossing numbers do not change (C18_signs_reorder).
+   Braid closures, for EVERY word whose closure is defined (no letter 0, letters within the strands, no
+   free loop): valid code, one X crossing per letter, consistently oriented downwards, sign list = the
+   letters' signs up to reversal of components that never pass under (C18_closure_signs), writhe =
+   exponent sum (C18_closure_writhe: the reversals cancel, by a potential-function argument on the
+   positions occupied by the reversed strands), number of components = number of cycles of the braid
+   permutation (C18_closure_components).
+   NOT a theorem (impossible without planarity, which the model - like the code - does not capture):
+   invariance of the writhe under crossing reordering for a code with a component that only passes over;
+   C18_reorder_needs_planarity exhibits a valid, consistently oriented, non-planar code whose writhe
+   changes from +1 to -1 when two crossings are exchanged.  For genuine (planar) diagrams this clause
+   is covered by the invariance cases of the correspondence run (vlib/c18.py). *)
+From Coq Require Import List Arith Bool ZArith Lia.
 Require Import Yui.Model.Link Yui.Model.Braid.
+From Coq Require Import Permutation.
 Require Import Yui.Proofs.C18Base Yui.Proofs.C18Traverse Yui.Proofs.C18Components Yui.Proofs.C18Resolve
   Yui.Proofs.C18Signs Yui.Proofs.C18Closure Yui.Proofs.C18Main.
+Require Import Yui.Proofs.C18Orient Yui.Proofs.C18OrientReorder Yui.Proofs.C18BraidRows
+  Yui.Proofs.C18BraidOrient Yui.Proofs.C18BraidWrithe Yui.Proofs.C18BraidPerm Yui.Proofs.C18BraidCycles.
 Import ListNotations.
 
 (* --- validity is decidable by the model's boolean ------------------------------------------------ *)
@@ -132,6 +144,75 @@ Theorem C18_closure : forall strands w l, closure strands w = Some l ->
 Proof. exact closure_valid. Qed.
 Print Assumptions C18_closure.
 
+(* a closure is consistently oriented by "all strands run downwards"; the sign of crossing k for this
+   orientation is the sign of letter k *)
+Theorem C18_closure_oriented : forall strands w l, closure strands w = Some l ->
+  Unresolved l /\ Oriented l (braid_o w) /\ signs_of l (braid_o w) = map letter_sign w.
+Proof. exact closure_oriented_full. Qed.
+Print Assumptions C18_closure_oriented.
+
+(* the sign list: the letters' signs, the crossings whose over-strand lies on a reversed component (rev;
+   such a component never passes under) carrying the opposite sign *)
+Theorem C18_closure_signs : forall strands w l, closure strands w = Some l ->
+  exists rev : nat -> bool,
+    (forall e e', thru l e e' -> rev e = rev e') /\
+    (forall k, k < length w -> rev (edge_at l (k, 0)) = false) /\
+    crossing_signs l =
+      Some (map (fun k => if rev (edge_at l (k, 1)) then neg_sign (letter_sign (nth k w 0%Z))
+                          else letter_sign (nth k w 0%Z)) (seq 0 (length w))).
+Proof. exact closure_signs. Qed.
+Print Assumptions C18_closure_signs.
+
+Theorem C18_closure_signs_letters : forall strands w l, closure strands w = Some l ->
+  (forall k, k < length w -> exists k', k' < length w /\ conn l (edge_at l (k, 1)) (edge_at l (k', 0))) ->
+  crossing_signs l = Some (map letter_sign w).
+Proof. exact closure_signs_letters. Qed.
+Print Assumptions C18_closure_signs_letters.
+
+(* writhe = exponent sum, for every word whose closure is defined *)
+Theorem C18_closure_writhe : forall strands w l, closure strands w = Some l ->
+  writhe l = Some (exponent_sum w).
+Proof. exact closure_writhe. Qed.
+Print Assumptions C18_closure_writhe.
+
+(* number of components = number of cycles of the braid permutation *)
+Theorem C18_closure_components : forall strands w l, closure strands w = Some l ->
+  exists cs, components l = Some cs /\ length cs = count_cycles (braid_perm strands w).
+Proof. exact closure_components. Qed.
+Print Assumptions C18_closure_components.
+
+(* --- signs: the orientation clause ------------------------------------------------------------------ *)
+Theorem C18_signs_orientation : forall l o, Valid l -> Unresolved l -> Oriented l o ->
+  exists o', Oriented l o' /\
+    (forall p, InR l p -> (exists i, i < length l /\ conn l (edge_at l p) (edge_at l (i, 0))) -> o' p = o p) /\
+    crossing_signs l = Some (signs_of l o').
+Proof. exact signs_orientation_agree. Qed.
+Print Assumptions C18_signs_orientation.
+
+Theorem C18_signs_orientation_unique : forall l o, Valid l -> Unresolved l -> Oriented l o -> NoOnlyOver l ->
+  crossing_signs l = Some (signs_of l o).
+Proof. exact signs_orientation_unique. Qed.
+Print Assumptions C18_signs_orientation_unique.
+
+Theorem C18_knot_no_only_over : forall l c, Valid l -> components l = Some [c] -> 0 < length l -> NoOnlyOver l.
+Proof. exact knot_NoOnlyOver. Qed.
+Print Assumptions C18_knot_no_only_over.
+
+(* reordering the crossings *)
+Theorem C18_signs_reorder : forall l l' o, Valid l -> Unresolved l -> Oriented l o -> NoOnlyOver l ->
+  Permutation l l' ->
+  exists sg sg', crossing_signs l = Some sg /\ crossing_signs l' = Some sg' /\ Permutation sg sg' /\
+    signed_crossing_nums l' = signed_crossing_nums l /\ writhe l' = writhe l.
+Proof. exact signs_reorder. Qed.
+Print Assumptions C18_signs_reorder.
+
+(* the hypothesis NoOnlyOver cannot be dropped without planarity *)
+Theorem C18_reorder_needs_planarity :
+  valid reorder_witness = true /\ Permutation reorder_witness reorder_witness' /\
+  writhe reorder_witness = Some 1%Z /\ writhe reorder_witness' = Some (-1)%Z.
+Proof. exact reorder_witness_values. Qed.
+Print Assumptions C18_reorder_needs_planarity.
+
 (* --- non-vacuity --------------------------------------------------------------------------------- *)
 Definition ex_trefoil : link := link_of_code [(1,4,2,5); (3,6,4,1); (5,2,6,3)].
 Definition ex_kink : link := link_of_code [(0,0,1,1)].
@@ -148,3 +229,21 @@ Example C18_closure_examples :
   closure 2 [1; 1; 1]%Z = Some (link_of_code [(0,2,3,1); (2,4,5,3); (4,0,1,5)]) /\
   closure 3 [1; 1]%Z = None /\ closure 2 [2]%Z = None /\ closure 2 [0]%Z = None.
 Proof. vm_compute. auto. Qed.
+
+(* the hypotheses of the orientation / reordering theorems are satisfiable: the trefoil as closure of
+   sigma_1^3; a closure with a strand that only passes over: the sign list is NOT the letters' signs,
+   the writhe is still the exponent sum *)
+Definition ex_braid_trefoil : link := link_of_code [(0,2,3,1); (2,4,5,3); (4,0,1,5)].
+Example C18_orientation_nonvacuous :
+  Valid ex_braid_trefoil /\ Unresolved ex_braid_trefoil /\ Oriented ex_braid_trefoil (braid_o [1; 1; 1]%Z) /\
+  NoOnlyOver ex_braid_trefoil /\ crossing_signs ex_braid_trefoil = Some [Pos; Pos; Pos].
+Proof.
+  assert (H : closure 2 [1; 1; 1]%Z = Some ex_braid_trefoil) by (vm_compute; reflexivity).
+  destruct (C18_closure 2 _ _ H) as (Hv & _). destruct (C18_closure_oriented 2 _ _ H) as (Hu & Ho & _).
+  split; auto. split; auto. split; auto. split; [|vm_compute; reflexivity].
+  apply (knot_NoOnlyOver _ (mkP [0; 3; 4; 1; 2; 5] true)); [exact Hv|vm_compute; reflexivity|cbn; lia].
+Qed.
+Example C18_only_over_closure :
+  exists l, closure 2 [1; -1]%Z = Some l /\ crossing_signs l = Some [Neg; Pos] /\
+            map letter_sign [1; -1]%Z = [Pos; Neg] /\ writhe l = Some (exponent_sum [1; -1]%Z).
+Proof. eexists. split; [vm_compute; reflexivity|]. vm_compute. auto. Qed.
